@@ -39,7 +39,7 @@ struct phasepool { struct srv_answer *a[64]; int n; };
 static int huge_ok;   /* the 5400-byte reply form is left out of the runs that repeat every script at every split point */
 static void add_code(struct phasepool *pp, int code, int formlevel)
 {
-  char b[8192], nm[64]; int f, i, nforms = formlevel == 0 ? 1 : (formlevel == 1 ? 2 : (huge_ok ? 6 : 5)); size_t o;
+  char b[8192], nm[64]; int f, i, nforms = formlevel == 0 ? 1 : (formlevel == 1 ? 2 : (huge_ok ? 7 : 5)); size_t o;
   for (f = 0; f < nforms; f++) {
     switch (f) {
       case 0: snprintf(b, sizeof b, "%d text\r\n", code); break;
@@ -48,6 +48,8 @@ static void add_code(struct phasepool *pp, int code, int formlevel)
       case 3: snprintf(b, sizeof b, "%d lf only\n", code); break;
       case 4: snprintf(b, sizeof b, "%d-one\r\n%d-two 550 K\r\n%d three\r\n", code, code, code); break;
       /* one reply of 73 lines / 5400 bytes: longer than the 5000 bytes of it that qmail-remote keeps for its report; the reply still ends where it ends */
+      /* an RFC 2034 enhanced status code whose class differs from the reply code: the reply code alone decides */
+      case 6: snprintf(b, sizeof b, "%d %s looks different\r\n", code, code / 100 == 2 ? "5.7.1" : "2.0.0"); break;
       case 5: o = 0; for (i = 0; i < 72; i++) o += snprintf(b + o, sizeof b - o, "%d-%02d this is one of many continuation lines of a very chatty server..........\r\n", code, i); snprintf(b + o, sizeof b - o, "%d end of it\r\n", code); break;
     }
     snprintf(nm, sizeof nm, "%d/f%d", code, f);
